@@ -110,5 +110,40 @@ def run(res, tier):
                         "global event order is the order of recording under one lock"]
 
 
+def free_add_to(res, tier, clauses, pid, only):
+    """the free-running UDP bursts as a PART of another property's check: the scenarios of the C09 grid selected by `only`
+    run on the real servePacket loop, violations of `clauses` are reported under pid"""
+    vdrive = build_harness()
+    with Scratch("verif-udpx-") as tmp:
+        copy_specs(tmp)
+        g = [x for x in grid(tmp, "L4UdpGrid", tier) if only(x)]
+        if not g:
+            raise Inconclusive("no UDP scenario selected")
+        gf = os.path.join(tmp, "grid.ndjson")
+        with open(gf, "w") as f:
+            for x in g:
+                f.write(json.dumps(x) + "\n")
+        tr = os.path.join(tmp, "udp_all.ndjson")
+        summ = os.path.join(tmp, "sum.json")
+        rc, out, err = run_child(vdrive, ["udp-run", "-in", gf, "-out", tr, "-summary", summ, "-reps", "1" if tier == "quick" else "4"])
+        if rc != 0:
+            if "panic:" in err or "fatal error:" in err:
+                crash_violation(res, out, err, "udp-run")
+                return
+            raise Inconclusive(f"udp-run failed rc={rc}: {out[-1000:]} {err[-2000:]}")
+        s = json.load(open(summ))
+        n, bad, st = validate_traces(tmp, tr, "udp_traces.ndjson", "L4UdpTrace.tla", "L4UdpTrace.cfg")
+        res.coverage["udp_streams"] = dict(clauses=list(clauses), scenarios=len(g), runs=s["runs"], deliveries=s["deliveries"], traces_validated_against_impl=n)
+        res.coverage["traces_validated_against_impl"] = res.coverage.get("traces_validated_against_impl", 0) + n
+        traces = {}
+        for line in open(tr):
+            t = json.loads(line)
+            traces[t["id"]] = t
+        for b in bad:
+            mine = [c for c in b["clauses"] if c.split()[0] in clauses]
+            if mine:
+                res.violation("udp:" + "+".join(sorted(c.split()[0] for c in mine)), "; ".join(mine) + f" (trace {b['id']})", traces[b["id"]])
+
+
 def replay(res, path):
     raise Inconclusive("C09 replays are scenario descriptions; re-run bin/check C09")
